@@ -158,10 +158,10 @@ theorem parseHttpSigFullL_print (s : HttpSigL) (hv : versionInGrammar s.version 
       fun r => sepList1_joinComma parseHeaderL printHeaderL x xs (Or.inr ⟨r, rfl⟩)
         (fun h hm r' hr' => parseHeaderL_print h (hh h hm) hr')
     obtain ⟨L, h2, h3⟩ := habsent_parse habsent ha expsw
-    unfold parseHttpSigFullL full parseHttpSigL
+    unfold parseHttpSigFullL full parseHttpSigL parseHttpSigRawL
     rw [e]
     simp only [parseHttpVersion_print ver hv, colon_cons, Option.bind_eq_bind, Option.bind_some, h1, h2,
-      rest, Option.pure_def, Option.getD_some, h3]
+      rest, Option.pure_def, Option.getD_some, filterHabsent, h3]
 
 
 end Huginn.SigText
